@@ -180,6 +180,17 @@ class FnTranslator:
             if isinstance(node.value, float) and float(node.value).is_integer():
                 return str(int(node.value))
             raise Untranslatable(f'constant {node.value!r}')
+        if self.opaque and not isinstance(node, ast.Constant):
+            # sub-expressions declared opaque in the spec (regex on the unparsed text -> parameter name): integers the function
+            # reads from its environment (len of a container it is handed, a file size ...)
+            try:
+                txt_ = ast.unparse(node)
+            except Exception:
+                txt_ = None
+            if txt_ is not None:
+                for rx, pname in self.opaque.items():
+                    if re.fullmatch(rx, txt_):
+                        return self.param(env, pname)
         nm = _name_of(node) if isinstance(node, (ast.Name, ast.Attribute, ast.Call)) else None
         if nm is not None and isinstance(node, ast.Call) and (_callname(node) is not None and node.args):
             nm = None
@@ -680,6 +691,7 @@ class FnTranslator:
     generators_elem = {}
     fraction_params = {}
     assume = {}
+    opaque = {}
     elementwise = False
     optional = {}            # lean parameter name -> presence-flag parameter name
     option_return = False
@@ -891,6 +903,15 @@ def translate_item(src_root, item):
     path = Path(src_root) / item['module']
     tree = ast.parse(path.read_text())
     fn = find_function(tree, item['function'])
+    if item.get('loop_body'):
+        # translate ONE iteration of the function's first `for` loop over a container (its target becomes a free name)
+        loops = [st for st in fn.body if isinstance(st, ast.For)]
+        if not loops:
+            raise Untranslatable(f'{item["function"]} has no top-level for loop')
+        lp = loops[0]
+        fn = ast.FunctionDef(name=fn.name, args=fn.args, body=list(lp.body), decorator_list=[], returns=None, type_comment=None, type_params=[])
+        ast.fix_missing_locations(fn)
+        item = dict(item, free=list(item.get('free') or []) + [n.id for n in ast.walk(lp.target) if isinstance(n, ast.Name)])
     tr = FnTranslator(fn, events=item.get('events'), param_order=item.get('params'), free=item.get('free'))
     tr.elementwise = bool(item.get('elementwise'))
     tr.fname = item['name']
@@ -898,6 +919,7 @@ def translate_item(src_root, item):
     tr.generators_elem = dict(item.get('_generators_elem', {}))
     tr.fraction_params = dict(item.get('fractions', {}))
     tr.assume = dict(item.get('assume', {}))
+    tr.opaque = dict(item.get('opaque', {}))
     tr.optional = dict(item.get('optional', {}))
     tr.option_return = bool(item.get('option_return'))
     if 'elem' in item:
